@@ -49,7 +49,7 @@ Holds14(v) ==
           /\ obs.key = KeySpec(req)
           /\ obs.ports = [i \in 1..Len(req.ports) |-> <<req.ports[i].pub, req.ports[i].loc>>]
           /\ SeqToSet(obs.flags) = Flags(req) /\ Len(obs.flags) = Cardinality(Flags(req))
-          /\ obs.cauth = [i \in 1..Len(req.clients) |-> <<req.clients[i].name, req.clients[i].token>>]
+          /\ obs.cauth = [i \in 1..Len(req.clients) |-> <<req.clients[i].name, req.clients[i].token, req.clients[i].given>>]   \* given: the caller supplied a token (even an empty one)
           /\ obs.hostname = obs.sid \o ".onion"
           /\ obs.stored = Stored(req, obs)
           /\ obs.after = obs.stored         \* the key stays with the caller's object after remove() (a restart re-creates from it)
